@@ -12,6 +12,21 @@ BUILT = {
             "Trusts Lean's kernel, axioms propext/Classical.choice/Quot.sound, the hand-written model Str.lean/Cp1252.lean and the correspondence harness; Python's cp1252 codec is modelled as a table and compared exhaustively.",
             "DESIGN.md §6 C13"),
 }
+NOTE = "Trusts Lean's kernel, axioms propext/Classical.choice/Quot.sound, the hand-written model under lean/TdfModel and the correspondence harness (differential testing); numpy/CPython primitives are modelled, not verified (DESIGN.md §4)."
+BUILT.update({
+    "C01": ("Lean 4 round-trip theorems dec(enc x ++ rest) = (x, rest) for all nine block models (induction over item lists and frame masks) + seeded correspondence of model enc/dec with _write/_build",
+            "Proof over the model for every valid block of the nine types (unbounded items, frames, masks); tied to /repo by byte-equality of encodings and equality of decoded values on seeded shape-directed blocks, each also judged by decode(encode(x)) == x on the real code.",
+            NOTE, "DESIGN.md §6 C01"),
+    "C02": ("Lean 4 theorems (enc x).length = size x with size mirroring nBytes term by term, exact consumption from the round-trip law, nested items + correspondence of the three numbers incl. the BTS capture vs its jump table",
+            "Proof over the model for all valid blocks and nested items; tied to /repo by comparing nBytes / bytes written / bytes consumed on seeded blocks and on the 8 capture blocks.",
+            NOTE, "DESIGN.md §6 C02"),
+    "C05": ("Lean 4 theorems on the run-length codec (runs canonical, cover exactly, fill∘runs = id, byte-level round trip) for all n and all 2^n masks + exhaustive small-mask correspondence with dirty-heap double decode",
+            "Proof over the model for every mask; the real code is compared on all masks n<=10 (quick) / n<=12 (thorough) for four track kinds; uninitialised-memory exposure is explored on the real decoder only (a model cannot exhibit it).",
+            NOTE, "DESIGN.md §6 C05"),
+    "C12": ("Lean 4 non-interference theorem proved once by induction over decoder programs of a free monad (take/skip/str), scramble corollaries for header, entry and nine blocks + scrambling correspondence with hostile bytes",
+            "Proof over the model for every decoder and every byte string; the real decoders are run on encodings whose model-marked don't-care bytes are overwritten (library-written, capture).",
+            NOTE, "DESIGN.md §6 C12"),
+})
 ALL = [f"C{i:02d}" for i in range(1, 21)]
 
 checks = []
